@@ -63,6 +63,11 @@ TNext ==
        \* rest of the trace (up to the next Reset) is skipped
        \/ /\ e.a = "Write" /\ ~kf /\ WellFormed(e.req) /\ SeqStateError(st, e.req)
           /\ st' = st /\ kf' = TRUE
+       \* known finding seqOverflow (design/C16.md): a sequence put whose exact result is not a uint64.  Apply
+       \* transcribes what the code does today (the sum wraps), so such a line is normally consumed by the first
+       \* branch; a line that shows any other treatment of the overflow is not judged and ends the trace
+       \/ /\ e.a = "Write" /\ ~kf /\ WellFormed(e.req) /\ SeqOverflow(st, e.req) /\ ~SeqStateError(st, e.req)
+          /\ st' = st /\ kf' = TRUE
        \/ /\ kf /\ e.a # "Reset" /\ st' = st /\ kf' = kf
 
 TraceSpec == TInit /\ [][TNext]_tvars
@@ -71,6 +76,9 @@ TraceInv == IndexMirror(st) /\ ShadowMirror(st) /\ VersionsSane(st)
 \* for hostile request streams (C13): a record put under the internal prefix with an index or a session and
 \* then removed by an internal range is not cleaned up - the mirrors are only claimed for client key spaces
 TraceInvBasic == VersionsSane(st)
+\* (... and for sequence-heavy streams over the whole uint64 range (C16): a sequence put never looks at the record
+\* under the key it generates, so one that wraps onto a live key (finding seqOverflow) replaces that record
+\* without removing its index entries)
 
 \* high-water mark of consumed lines (diagnostics and acceptance)
 HighWater == IF l > TLCGet(1) THEN TLCSet(1, l) ELSE TRUE
